@@ -426,7 +426,22 @@ def _substitute_reference(repo, f, entry):
             k = try_fold(v)
             if isinstance(k, (int, float, str)) and not isinstance(k, bool):
                 consts[nm] = k
-        if normal.nf_key(f.node, info, consts) != normal.nf_key(rnode, info, consts):
+        ref_all = reference()
+
+        def resolve_node(call):
+            try:
+                g = repo.resolve_call(call, f)
+            except Exception:
+                return None
+            if g is None or g.cls is not None:
+                return None
+            g.node._key = '%s:%s' % (g.rel, g.qualname)
+            return g.node
+
+        def is_new(gnode):
+            return getattr(gnode, '_key', None) is not None and (gnode._key + '#src') not in ref_all
+        cur = normal.inline_new_helpers(f.node, resolve_node, is_new)
+        if normal.nf_key(cur, info, consts) != normal.nf_key(rnode, info, consts):
             return False
     except (SyntaxError, RecursionError):
         return False
